@@ -233,11 +233,11 @@ class Gen(object):
                 if all((model.lev(w, text, False) <= md) == (model.lev(w, text, True) <= md) for w in model.VOCAB + EXTRA_WORDS):
                     break
             q = query.FuzzyTerm("t", text, maxdist=md, prefixlength=rng.randint(0, 2))
-        elif r < 0.91:
+        elif r < 0.90:
             q = query.Variations("t", rng.choice(["alfa", "echo", "golf", "echoes", "golfing", "bravo"]))
-        elif r < 0.95:
+        elif r < 0.96:
             if mode == "B":
-                q = rng.choice([query.NullQuery, query.NullQuery, query.And([]), query.Or([]), query.DisjunctionMax([])])
+                q = rng.choice([query.NullQuery, query.NullQuery, query.NullQuery, query.And([]), query.Or([]), query.DisjunctionMax([])])
             else:
                 q = self.term()
         else:
@@ -871,7 +871,8 @@ def check_tree(case, rng, q, q2):
     if ok:
         xq = expand_leaves(case, q, pop)
         san, spop = None, pop
-        if xq is not None:
+        # only a compound root ends its simplify() in normalize(); any other root is one leaf step, judged strictly
+        if xq is not None and isinstance(q, _cls("compound", "CompoundQuery")) and q.subqueries:
             spop = "B" if (pop == "B" or triggers(xq)) else "A"
             san = steps_of(xq, "simplify", spop, sq)
         judge("simplify", sq, q, spop, base, exp, san)
